@@ -67,7 +67,7 @@ Print Assumptions C06_rpc_error.
    interim patterns) unless eager, result; a deadline at a read yields the timeout error, a loss
    the transport's own error, and nothing is invoked after the failing read — for EVERY
    configuration, input, options and sequence of read outcomes. *)
-From Scrapli Require Import DecideLang GeneratedSkel InteractiveSrcDefs ChannelSrc.
+From Scrapli Require Import DecideLang GeneratedSkel InteractiveSrcDefs SendInputSrc.
 Theorem C06_send_input_is_source :
   sin_table_ok = true
   /\ forall cfg input o rds,
@@ -76,3 +76,12 @@ Theorem C06_send_input_is_source :
           snd (sin_expected (o_exact o) (o_eager o) (is_nil (o_interim o)) (fail_src o input rds))).
 Proof. exact send_input_is_source. Qed.
 Print Assumptions C06_send_input_is_source.
+
+(* every test that the translated functions of this property make is one the environments of their
+   ties were written for: a test that is new in the source breaks this (an unknown equality would
+   otherwise evaluate to false without notice) *)
+From Scrapli Require Import DecideLang GeneratedSkel SendInputSrc.
+Theorem C06_source_tests_known :
+  tests_known send_input_code send_input_known = true.
+Proof. exact send_input_tests_known. Qed.
+Print Assumptions C06_source_tests_known.
